@@ -100,11 +100,11 @@ PROPS = {
     ),
     "C07": dict(
         title="join runs once and only when satisfied",
-        theorems={JOIN: ["C07_ready_iff_satisfied", "C07_barrier_requirement", "C07_unreachable_fails", "C07_check_statuses", "C07_arrival_merges"], NEXT: ["C01_offer_from_staged"],
+        theorems={JOIN: ["C07_ready_iff_satisfied", "C07_barrier_requirement", "C07_unreachable_fails", "C07_check_statuses", "C07_arrival_merges", "C07_report_consumes_entry"], NEXT: ["C01_offer_from_staged"],
                   EDGES: ["C01_offers_justified_by_the_definition"]},
         keys=["status", "staged", "errors", "sequence"], offers="ids",
         prof=dict(p_join=0.7, p_join_count=0.3, max_tasks=7, p_template=0.4, templates=[0, 0, 0, 2, 6]), hist=dict(p_fail=0.3, p_cancel=0.03, p_lazy_start=0.25),
-        monitor="C07", unproven=["C07_once (at most one start per satisfaction) not proved; count joins: known finding D2"],
+        monitor="C07", unproven=["C07_once (at most one start per satisfaction) along whole histories is not proved; proved per step: the first report consumes the staged entry of the instance (C07_report_consumes_entry, with the uniqueness of staged keys as a hypothesis); count joins: known finding D2"],
     ),
     "C08": dict(
         title="outcome independent of completion order",
